@@ -21,6 +21,7 @@ First(q) == IF q = <<>> THEN <<>> ELSE <<q[1]>>
 Expected(e) ==
     LET a == e.action  p == e.pre  x == e.args IN
     CASE a = "AddTaxon"     -> OpAddTaxon(p, x.t)
+      [] a = "AddTaxa"      -> OpAddTaxa(p, x.ts)
       [] a = "NewTaxon"     -> OpNewTaxon(p, x.l)
       [] a = "NewTaxa"      -> OpNewTaxa(p, x.ls)
       [] a = "RequireTaxon" -> OpRequireTaxon(p, x.l, x.c)
@@ -35,7 +36,7 @@ Expected(e) ==
 
 \* the bitmask cache is observed through taxon_bitmask(), which fills it: compare modulo bm
 NoBm(s) == [s EXCEPT !.bm = [i \in 1..Len(s.bm) |-> {}]]
-Mutators == {"AddTaxon", "NewTaxon", "NewTaxa", "RequireTaxon", "RemoveTaxon", "RemoveLabel", "Clear",
+Mutators == {"AddTaxon", "AddTaxa", "NewTaxon", "NewTaxa", "RequireTaxon", "RemoveTaxon", "RemoveLabel", "Clear",
              "Reverse", "Relabel", "SetCase", "SetMutable", "CreateTaxon"}
 
 JudgeMutator(e) ==
